@@ -214,7 +214,7 @@ def typeMatches (xv : Val) : Option Ty → Bool
 variable (P : Program)
 
 def topFunc (x : String) : Option Nat :=
-  P.funcs.findIdx? (fun d => d.name == x)
+  P.funcs.toList.findIdx? (fun d => d.name == x)
 
 mutual
 
